@@ -786,7 +786,7 @@ class ConcCheck(SeqCheck):
         run_script_suite(self, ctx, stats)
         if ctx.prop == 'C10': run_waitprobe(ctx, stats)
         self.send_bad = []
-        if ctx.prop == 'C03':
+        if ctx.prop in ('C02', 'C03'):
             # "safe programs are free of data races": an iterator of a LOCAL buffer (plain cells, no release/acquire) must not be able
             # to reach a second thread, by value or by reference (rustc decides, as in C16)
             bindir, log = ctx.build_harness(('sendprobe',))
@@ -797,7 +797,7 @@ class ConcCheck(SeqCheck):
                 if not m: continue
                 conc, send, sync = int(m.group(3)), int(m.group(6)), int(m.group(7))
                 if (send and not conc) or sync or (m.group(1) == 'Ref' and send): self.send_bad.append((m.group(8), conc, send, sync))
-            ctx.notes['send_probe_rows_for_C03'] = len(re.findall(r'=> send=', out))
+            ctx.notes['send_probe_rows'] = len(re.findall(r'=> send=', out))
     def suites(self, ctx):
         s = ctx.seed
         if ctx.tier == 'quick':
@@ -846,7 +846,7 @@ class ConcCheck(SeqCheck):
                           f'// fn assert_send<T: Send>() {{}}  fn main() {{ assert_send::<{t}>(); }}   // compiles: the iterator can be dropped on another thread\n'
                           f'## {len(self.send_bad)} such types')
             return
-        if getattr(self, 'send_bad', None) and ctx.prop == 'C03':
+        if getattr(self, 'send_bad', None) and ctx.prop in ('C02', 'C03'):
             t, conc, send, sync = self.send_bad[0]
             how = 'is Sync: a reference to it can be used from a second thread' if sync else 'is Send although it belongs to a local buffer (plain, unsynchronised index cells)'
             ctx.violation(f'`{t}` {how}: safe code can access one buffer from two threads with no happens-before between the accesses',
